@@ -72,12 +72,12 @@ var ReqVariants = map[string][]string{
 	"host":       {"canonical", "absent", "case-name", "blanks", "empty", "dup-same", "with-port"},
 	"upgrade":    {"canonical", "absent", "case-name", "case-value", "blanks", "wrong", "empty", "dup-same", "dup-diff", "token-list", "prefix", "suffix", "cr-tail"},
 	"connection": {"canonical", "absent", "case-name", "case-value", "blanks", "wrong", "empty", "dup-same", "dup-diff", "list-first", "list-middle", "list-last", "list-nospace", "substring", "list-tab", "cr-tail"},
-	"version":    {"canonical", "absent", "case-name", "blanks", "wrong-12", "wrong-8", "wrong-130", "empty", "dup-same", "dup-diff", "list", "cr-tail",
+	"version": {"canonical", "absent", "case-name", "blanks", "wrong-12", "wrong-8", "wrong-130", "empty", "dup-same", "dup-diff", "list", "cr-tail",
 		// spellings a numeric parser takes for 13 but that are not the version token "13" (RFC 6455 §4.2.1: no leading zeros)
 		"num-013", "num-0013", "num-+13", "num-13.0", "num-0xd", "num-1_3", "num-13e0"},
-	"key":        {"canonical", "absent", "case-name", "blanks", "len23", "len25", "nonbase64-24", "decodes-17", "decodes-18", "empty", "dup-same", "dup-diff", "len16raw", "cr-inside", "cr-cr-tail", "cr-tail"},
-	"extra":      {"none", "some", "long-value", "many", "no-colon-line", "empty-name", "cr-only-line", "token-names", "blank-value"},
-	"eol":        {"crlf", "lf"},
+	"key":   {"canonical", "absent", "case-name", "blanks", "len23", "len25", "nonbase64-24", "decodes-17", "decodes-18", "empty", "dup-same", "dup-diff", "len16raw", "cr-inside", "cr-cr-tail", "cr-tail"},
+	"extra": {"none", "some", "long-value", "many", "no-colon-line", "empty-name", "cr-only-line", "token-names", "blank-value"},
+	"eol":   {"crlf", "lf"},
 }
 
 func caseVary(s string, rng *rand.Rand) string {
